@@ -15,6 +15,36 @@ claim("C05", "model_checking",
       "Trusts M1 (DESIGN Appendix A.1) as the statement of the gate identities, dusk-bls12_381/dusk-jubjub field and curve arithmetic, and treats separation-challenge cancellations (~2^-250) as impossible. Field values come from constructed assignments and small perturbations, not the whole field.",
       "DESIGN.md §5 C05")
 
+claim("C06", "model_checking",
+      "exhaustive enumeration of 134 RNG scripts (each of the 14 draws replaced, every pair forced equal) x circuits, real prover vs independent reference prover M3 byte for byte plus mask algebra",
+      "For every script the real prover must draw exactly 14 x 64 bytes via fill_bytes in protocol order, its proof must be byte-identical to the naive reference prover M3 (own DFT, schoolbook arithmetic, explicit commitments, literal transcript table), every opening must equal the unmasked value (interpolated from the witness table by definition) plus the prescribed (b0+b1X[+b2X^2])*Z_H mask, changing draw i must move exactly the commitments the protocol order predicts by exactly delta*(P_{n+e}-P_e), and proofs from disjoint scripts share no commitment or evaluation.",
+      "Trusts M3 (own code, bound to the real prover by byte equality on every script), dusk-bls12_381 arithmetic and merlin. Decides the masking structure for the enumerated scripts and small circuits (n <= 64); the statistical zero-knowledge consequence is not re-proved.",
+      "DESIGN.md §5 C06")
+
+claim("C09", "model_checking",
+      "deviation-bounded exhaustive exploration (E2) of the range gadget for every width x boundary value, every assignment decided by the row model M1, verdicts replayed on the real prover",
+      "For every width (quick: 22 residue-class representatives incl. 0,1,254,255,256; thorough: all 0..=256), every entry point (bit-counted, deprecated bit-pair-counted, runtime seam) and every boundary value, the honest assignment and every bound-1 deviation of the gadget's own allocations (bound 2 for widths <= 12 in thorough), re-run through the real witness generator, is decided by M1: satisfiable iff canonical value < 2^w, and no deviation makes an out-of-range value satisfiable. Both entry points must emit identical gates for equal widths. Model verdicts (honest, every model-satisfiable deviation, unsatisfiable samples per failing component) are replayed on the real prover+verifier.",
+      "Trusts M1 (bound to the prover by C05) and the boundary value alphabet; adversary limited to <= 1 (2) deviating allocations with honest recomputation afterwards.",
+      "DESIGN.md §5 C09")
+
+claim("C11", "model_checking",
+      "deviation-bounded exhaustive exploration (E2) of truncate / decomposition for every N x boundary value incl. all integer representatives x + k r, decided by M1, verdicts replayed on the real prover",
+      "component_truncate::<N> (N = 0..=254) must be satisfiable for every input and return canonical(x) mod 2^N under the honest assignment, every bound-1 deviation and the alias split (low', high') of x + r on allocation pairs; component_decomposition::<N> (N = 1..=256) must be satisfiable iff canonical(x) < 2^N and return exactly its bits - the bit vectors of every other integer representative x + k r < 2^N (the complete adversary space given the boolean rows) must be unsatisfiable. Model verdicts replayed on the real prover+verifier.",
+      "Trusts M1 (bound to the prover by C05), the 320-bit integer spec M5, and the boundary value alphabet.",
+      "DESIGN.md §5 C11")
+
+claim("C19", "model_checking",
+      "exhaustive enumeration of domain sizes x input lengths x vector families x real thread-pool sizes, and of all small polynomials / inversion vectors, real kernels vs naive definitions M4",
+      "Every FFT kernel (plain/coset, forward/inverse) on every size 2^0..2^8 plus 2^12, 2^13 (thorough: 2^0..2^14), lengths {0,1,n/2,n-1,n,n+1,2n}, vector families and pools of 1..17 threads equals the O(n^2) definition (recursive reference + Horner spot checks above 2^10), is thread-count independent and is inverted by its inverse; polynomial add/sub/mul/scale/eval/ruffini agree with schoolbook arithmetic on all 85 coefficient vectors of length <= 3 over {0,1,-1,2} (all 7225 pairs); batch inversion on all 341 vectors of length <= 4; vanishing / Lagrange / barycentric / fused evaluations equal their product definitions inside and outside the domain.",
+      "Trusts dusk-bls12_381 field arithmetic and the constants ROOT_OF_UNITY/GENERATOR; kernels are reached through the feature-gated wrappers dusk_plonk::verif::kernels. Thread counts are real rayon pools (task-order exploration is C18's shim). Inverse transforms of vectors longer than the domain are outside the statement (informational).",
+      "DESIGN.md §5 C19")
+
+claim("C20", "model_checking",
+      "exhaustive enumeration of SRS degrees, trim sizes, polynomial lengths, opening points and batch corruptions, real KZG code vs explicit sums and pairing equations (M4)",
+      "For SRS degrees 1..=8,24 (thorough 1..=24): P_0 = g and e(P_{i+1},h) = e(P_i,x_h) for all i; every trim size keeps a prefix of >= n+7 points or fails exactly beyond capacity; commitments equal the explicit sum, are additive, map zero to the identity and fail beyond the key degree; single, aggregated and batched openings pass iff every claimed evaluation is Horner-true (each position corrupted in turn: wrong evaluation, wrong witness, swapped commitments, point mismatch, empty and length-mismatched batches).",
+      "Trusts dusk-bls12_381 group/pairing arithmetic; Fiat-Shamir collisions (~2^-250) assumed not to occur; empty aggregate is outside the statement (informational).",
+      "DESIGN.md §5 C20")
+
 ALL = [f"C{i:02d}" for i in range(1, 21)]
 
 def main():
